@@ -411,7 +411,13 @@ def container_method(ex, recv: VRef, name, args, kwargs, st):
             x = z3.Int("x!dj")
             return [Res("val", lift_bool(z3.Not(z3.Exists([x], z3.And(z3.Select(st.dict_dom(r), x), z3.Select(st.dict_dom(o.z), x))))), st)]
         if name == "update":
-            # set.update(iterable): union with the elements of a sequence
+            # set.update(iterable): union with another set, or with the elements of a sequence
+            o = args[0]
+            if isinstance(o, VRef) and o.kinds and o.kinds[0] == "set":
+                x = z3.Int("x!upd")
+                d1, d2 = st.dict_dom(r), st.dict_dom(o.z)
+                st.dict_store(r, z3.Lambda([x], z3.Or(z3.Select(d1, x), z3.Select(d2, x))), st.dict_vals(r))
+                return [Res("val", None, st)]
             sq = arith.as_seq(ex.to_seq_value(args[0], st))
             dom = st.dict_dom(r)
             x, j = z3.Int("x!upd"), z3.Int("j!upd")
